@@ -93,12 +93,32 @@ def user_class():
     return UNode
 
 
+_FALSY = []
+
+
+def falsy_class():
+    """AnyNode subclass whose instances are falsy while they have no children (container-like)."""
+    from anytree import AnyNode
+
+    if not _FALSY:
+        class FalsyAnyNode(AnyNode):
+            def __len__(self):
+                return len(self.children)
+
+        _FALSY.append(FalsyAnyNode)
+    return _FALSY[0]
+
+
 def build(lib, par, attrs, kind):
     from anytree import AnyNode, Node
 
     n = len(par)
     if kind == "AnyNode":
         nodes = [AnyNode(**attrs[i]) for i in range(n)]
+        recorded = [dict(attrs[i]) for i in range(n)]
+    elif kind == "Falsy":
+        cls = falsy_class()
+        nodes = [cls(**attrs[i]) for i in range(n)]
         recorded = [dict(attrs[i]) for i in range(n)]
     elif kind == "Node":
         nodes = [Node("nm%d" % i, **attrs[i]) for i in range(n)]
@@ -364,7 +384,7 @@ def run(ctx):
     T = ctx.tier == "thorough"
     nmax = 8 if T else 6
     idx = 0
-    kinds = ("AnyNode", "Node", "User")
+    kinds = ("AnyNode", "Node", "User", "Falsy")
     for n in range(1, nmax + 1):
         for par in gen.ordered_trees(n):
             idx += 1
@@ -372,7 +392,7 @@ def run(ctx):
                 continue
             rng = ctx.rng("attrs", idx)
             ch = gen.children_of(par)
-            for kind in kinds if n <= 5 else (kinds[idx % 3],):
+            for kind in kinds if n <= 5 else (kinds[idx % 4],):
                 attrs = small_attrs(rng, n)
                 case = {"par": list(par), "kind": kind, "attrs_repr": repr(attrs)}
                 check_all(ctx, lib, rng, par, attrs, kind, case, range(n), lambda s: [None] + list(range(0, R.height(ch, s) + 2)))
@@ -383,7 +403,7 @@ def run(ctx):
         n = rng.randint(1, 25)
         par, _ = gen.random_tree(rng, n)
         ch = gen.children_of(par)
-        kind = kinds[r % 3]
+        kind = kinds[r % 4]
         attrs = [gen.random_attrs(rng, json_only=False, maxkeys=6) for _ in range(n)]
         case = {"par": list(par), "kind": kind, "attrs_repr": repr(attrs)}
         s = rng.choice([0, rng.randrange(n)])
